@@ -950,6 +950,25 @@ func c15Case(c *Ctx) {
 			}
 			alt.Retain = nil
 			prog.Stages = append(prog.Stages, &alt)
+			if c.Plan.Draw(2) == 0 {
+				// ... and in half of the cases also call it, right before a call of
+				// the original with the same bindings: an edit which retargets the
+				// original's call then points at a callable the pipeline already uses
+			addCall:
+				for _, pl := range prog.Pipelines {
+					if !reachable(prog)[pl.Name] {
+						continue
+					}
+					for i, cc := range pl.Calls {
+						if cc.Callee == st.Name && !cc.Mapped && cc.Disabled == nil {
+							ac := &CallDef{Callee: alt.Name, Id: alt.Name + "_USED", Binds: append([]Bind(nil), cc.Binds...)}
+							pl.Calls = append(pl.Calls[:i], append([]*CallDef{ac}, pl.Calls[i:]...)...)
+							c.Res.Probes["alternative-stage-also-called"]++
+							break addCall
+						}
+					}
+				}
+			}
 			break
 		}
 	}
